@@ -652,7 +652,11 @@ impl Color {
     /// See: <https://www.w3.org/TR/2008/REC-WCAG20-20081211/#relativeluminancedef>
     pub fn luminance(&self) -> Scalar {
         fn f(s: Scalar) -> Scalar {
-            if s <= 0.03928 {
+            // The sRGB transfer function is continuous (and increasing) at 0.04045. With the
+            // threshold 0.03928 of the original WCAG 2.0 text the two branches are 7.6e-7 apart,
+            // so that raising a channel across it *lowered* the luminance. The WCAG errata use
+            // 0.04045; 8-bit channel values (10/255 < 0.03928, 0.04045 < 11/255) are unaffected.
+            if s <= 0.04045 {
                 s / 12.92
             } else {
                 Scalar::powf((s + 0.055) / 1.055, 2.4)
